@@ -1,6 +1,7 @@
 package astisub
 
 import (
+	"bufio"
 	"context"
 	"errors"
 	"fmt"
@@ -332,10 +333,35 @@ type TeletextOptions struct {
 // http://www.etsi.org/deliver/etsi_i_ets/300700_300799/300706/01_60/ets_300706e01p.pdf
 // TODO Update README
 // TODO Add tests
+// teletextFullReader fills the buffer of every Read unless the stream ends or fails: the demuxer detects the packet
+// size from (and re-synchronises with) single reads, which a reader delivering short reads would otherwise break
+type teletextFullReader struct{ r io.Reader }
+
+func (f teletextFullReader) Read(p []byte) (n int, err error) {
+	if n, err = io.ReadFull(f.r, p); err == io.ErrUnexpectedEOF {
+		err = nil
+	}
+	return
+}
+
+func newTeletextFullReader(r io.Reader) io.Reader {
+	// The demuxer peeks into a *bufio.Reader instead of reading
+	if _, ok := r.(*bufio.Reader); ok {
+		return r
+	}
+	if s, ok := r.(io.Seeker); ok {
+		return struct {
+			io.Reader
+			io.Seeker
+		}{teletextFullReader{r}, s}
+	}
+	return teletextFullReader{r}
+}
+
 func ReadFromTeletext(r io.Reader, o TeletextOptions) (s *Subtitles, err error) {
 	// Init
 	s = &Subtitles{}
-	var dmx = astits.NewDemuxer(context.Background(), r)
+	var dmx = astits.NewDemuxer(context.Background(), newTeletextFullReader(r))
 
 	// Get the teletext PID
 	var pid uint16
